@@ -918,12 +918,17 @@ class Unit:
             raise ValueError("duplicate function id " + fid)
         # a clause without explicit properties belongs to the function's properties plus the
         # property ids its label starts with ("C03-texts-move-to-orphans" -> C03)
+        # (kept per unit: clause objects are shared between the unit that verifies a function and the
+        # units that use the same contract as a stub)
+        cprops = {}
         for c in clauses:
-            if not c.props:
+            if c.props:
+                cprops[c.label] = sorted(c.props)
+            else:
                 toks = re.match(r"((?:C\d\d-)*)", c.label).group(1).strip("-").split("-")
-                c.props = sorted(set(props) | set(t for t in toks if t))
+                cprops[c.label] = sorted(set(props) | set(t for t in toks if t))
         self.fns[fid] = {"kind": kind, "clauses": {c.label: c for c in clauses}, "props": props,
-                         "lemma": lemma, "obj": obj}
+                         "clause_props": cprops, "lemma": lemma, "obj": obj}
 
     def generate(self, findings=True):
         """findings=False: leave the finding variants out (they are verified by a second, parallel
